@@ -47,9 +47,11 @@ PropTypes = Union[vText]
 TzifyFunction = Callable[[datetime], datetime]
 
 
-# TODO(jelmer): Populate this further based on
-# https://tools.ietf.org/html/rfc5545#3.3.11
-_INVALID_CONTROL_CHARACTERS = ["\x0c", "\x01"]
+# CONTROL characters that RFC 5545 section 3.3.11 does not allow in TEXT
+# (%x00-08 / %x0A-1F / %x7F); LF is what an escaped "\n" decodes to.
+_INVALID_CONTROL_CHARACTERS = [
+    chr(i) for i in range(0x20) if chr(i) not in "\t\n\r"
+] + ["\x7f"]
 
 
 class MissingProperty(Exception):
